@@ -5,6 +5,7 @@ from .. import histprop as H
 ID = 'C06'
 LEVEL = 'exploration'
 RULE = (
+    'Also dd.autoref worlds (handles, manual incref/decref through any handle of the node), a second manager with repeated copies after collections in the target, one shard under python -O. '
     'S: every position of the dynamic-reordering trigger (whose sifting starts with a collection) for entry points that hold intermediate results as integers (as in C09). '
     'H: Hypothesis-generated histories (dd.bdd, 2-5 variables) over build/'
     'apply/ite/quantify/let (result kept or left as garbage), incref, '
